@@ -164,3 +164,8 @@ for _n in ("bpe_sequences", "iw", "wass_LOT_exact_spmatrix"):
 for _n in ("wass_LOT_exact_spmatrix", "wass_LOT_sinkhorn_spmatrix", "sinkhorn"):
     _f = F.get(_n)
     FAMILIES["%s@zero_row" % _n] = Family(with_plan(_f), make_zero_row_check(_n), {"quick": 50, "thorough": 500}, {"quick": 1, "thorough": 3})
+
+# hundreds of items: a block holding more rows than one internal chunk (256) - shared with C08 (a row embedded alone must equal the
+# same row inside the collection, whatever memory_size says)
+from vv.props import c08 as _c08
+FAMILIES["wass_LOT_exact@many_rows"] = Family(_c08.many_rows_cases, _c08.check_many_rows, {"quick": 10, "thorough": 120}, {"quick": 1, "thorough": 4})
